@@ -184,6 +184,7 @@ def check_step(world, step, info=None):
     del rt.unraisable[:]
     del rt.faults[:]
     import contextlib
+    native.check_harness_faults(reset=True)
     pool_ctx = contextlib.nullcontext()
     if step.get('schedule') == 'reversed':
         pool_ctx = native.pool_installed(ReversingPool)
@@ -196,9 +197,19 @@ def check_step(world, step, info=None):
             else:
                 res = depccg.parsing.run(docs, scores, cats, roots, world.grammar.binary, world.grammar.unary, **cfg)
     except Exception as ex:
+        native.check_harness_faults()
+        if single_form:
+            # the one-sentence calling form is a convenience the statement (about batches) does not mention: if the
+            # same sentence goes through as a one-element batch, a refusal of the bare form decides nothing
+            try:
+                depccg.parsing.run(docs, scores, cats, roots, world.grammar.binary, world.grammar.unary, **cfg)
+                return fails
+            except Exception:
+                pass
         bad(f'raises/{type(ex).__name__}', f'batch {idxs} (processes={step["processes"]}, '
             f'max_chunk_size={step["max_chunk_size"]}, max_step={max_step}): {type(ex).__name__}: {ex}')
         return fails
+    native.check_harness_faults()
     for f in list(rt.unraisable) + list(rt.faults):
         bad('fault', f'batch {idxs}: {f}')
     if [str(c) for c in cats] != case['tags'] or [str(c) for c in roots] != case['roots']:
